@@ -44,7 +44,10 @@ DecideOK(c) ==
 \* ---------------------------------------------------------------- lattice scenes
 \* tangential vectors with integer norm: <<x, y, norm>>
 Tang == {<<0, 0, 0>>, <<3, 4, 5>>, <<0 - 4, 3, 5>>, <<5, 0, 5>>, <<0, 0 - 2, 2>>, <<6, 8, 10>>, <<0 - 5, 0 - 12, 13>>, <<1, 0, 1>>}
-SceneCases == [kind : {"scene"}, m : {1, 2, 4}, Ft : Tang, Fz : {0 - 20, 0 - 10, 0 - 4, 0, 3}, mun : {0, 1, 2}, mud : {1, 2}, v : {<<0, 0, 0>>, <<3, 4, 5>>, <<0, 0 - 2, 2>>, <<0 - 5, 0 - 12, 13>>}]
+\* ap: acceleration of the plane (a translating frame that is at rest at t0).  The contact law is stated in the acceleration RELATIVE to
+\* the plane, so F below is the force in the plane's frame (applied force minus m ap) and the absolute acceleration is AccNum/AccDen + ap.
+SceneCases == [kind : {"scene"}, m : {1, 2, 4}, Ft : Tang, Fz : {0 - 20, 0 - 10, 0 - 4, 0, 3}, mun : {0, 1, 2}, mud : {1, 2}, v : {<<0, 0, 0>>, <<3, 4, 5>>, <<0, 0 - 2, 2>>, <<0 - 5, 0 - 12, 13>>},
+               ap : {<<0, 0, 0>>, <<1, 0 - 2, 3>>}]
 
 \* rationals as <<num, den>>, den > 0
 LaN(c) == IF c.Fz > 0 THEN 0 ELSE 0 - c.Fz                 \* integer
@@ -84,7 +87,8 @@ SceneOK(c) ==
 
 Expected(c) ==
     IF c.kind = "decide" THEN [rejected |-> Rejected(c)]
-    ELSE [regime |-> Regime(c), laN |-> LaN(c), laFnum |-> LaFNum(c), laFden |-> LaFDen(c), accnum |-> AccNum(c), accden |-> AccDen(c)]
+    ELSE [regime |-> Regime(c), laN |-> LaN(c), laFnum |-> LaFNum(c), laFden |-> LaFDen(c),
+          accnum |-> <<AccNum(c)[1] + c.ap[1] * AccDen(c), AccNum(c)[2] + c.ap[2] * AccDen(c), AccNum(c)[3] + c.ap[3] * AccDen(c)>>, accden |-> AccDen(c)]
 
 \* ---------------------------------------------------------------- recorded assemblies (trace mode)
 \* a record holds booleans computed by the harness from the quantities System.assemble returned:
